@@ -347,8 +347,11 @@ func run(c Case, ev *pbt.Ev) error {
 		mt := d.MediaType
 		isGz := strings.HasSuffix(mt, "+gzip") || strings.HasSuffix(mt, ".gzip")
 		isZs := strings.HasSuffix(mt, "+zstd") || strings.HasSuffix(mt, ".zstd")
-		if (comp == "gzip") != isGz || (comp == "zstd") != isZs {
-			return pbt.Violf("media-type-mismatch", "layer %d: the blob is %s compressed but the descriptor's media type is %q (source was %q)", i, comp, mt, srcs[i].desc.MediaType)
+		// containerd's own reading of the media type is the reference: it must be a layer type whose
+		// compression is the blob's
+		dc, dcErr := images.DiffCompression(ctx, mt)
+		if (comp == "gzip") != isGz || (comp == "zstd") != isZs || !images.IsLayerType(mt) || dcErr != nil || dc != comp {
+			return pbt.Violf("media-type-mismatch", "layer %d: the blob is %s compressed but the descriptor's media type is %q (source was %q; containerd reads it as layer type: %v, compression %q, %v)", i, comp, mt, srcs[i].desc.MediaType, images.IsLayerType(mt), dc, dcErr)
 		}
 		if got := d.Annotations[estargz.StoreUncompressedSizeAnnotation]; got != fmt.Sprint(len(dec)) {
 			return pbt.Violf("uncompressed-size", "layer %d: uncompressed-size annotation %q, the blob decompresses to %d bytes", i, got, len(dec))
